@@ -36,7 +36,7 @@ def cases(draw, tier):
         msl = draw(st.integers(1, 2))
         n = draw(st.integers(2 * msl, 8))
         m = (n + 1) ** 4
-        flat = draw(st.lists(st.integers(0, 4), min_size=m, max_size=m))
+        flat = draw(st.lists(st.integers(-2, 4), min_size=m, max_size=m))
         sc = {"cls": "TableLocalAnomalyScore", "table": np.asarray(flat).reshape((n + 1,) * 4).tolist()}
         X = [[0.0] * p for _ in range(n)]
     else:
@@ -45,7 +45,8 @@ def cases(draw, tier):
         nmax = 22 if tier == "quick" else 30
         n = D.weighted(draw, [(7, st.integers(2 * msl, max(2 * msl, nmax))), (2, st.integers(2 * msl, 2 * msl + 3)), (1, st.just(2 * msl))])
         if sc == "function":
-            sc = {"cls": "FunctionLocalAnomalyScore", "key": draw(st.integers(0, 1000)), "modulus": draw(st.sampled_from([2, 3, 5, 7]))}
+            sc = {"cls": "FunctionLocalAnomalyScore", "key": draw(st.integers(0, 1000)), "modulus": draw(st.sampled_from([2, 3, 5, 7])),
+                  "offset": draw(st.sampled_from([0, 0, 1, 2]))}
             X = [[0.0] * p for _ in range(n)]
         else:
             X, _ = draw(D.structured_matrix(n, p, boundary_positions=(1, msl, n - msl, n - 2), max_shifts=1))
